@@ -234,6 +234,13 @@ def step (d : DSt) (ts : List String) : DSt × String :=
         let d2 := if d.fake then d1 else setClock d1 (d1.clk + ns)
         (pollAll d2, "ok")
       | none => (d, "bad-op")
+    else if op == "await" || op == "release" then
+      -- handshake with a poller thread blocked inside a gated predicate invocation (harness side);
+      -- the model's answer after `term` does not depend on where the poller is
+      -- (`polled_terminate_sticky_all_interleavings`)
+      match parseNat? a with
+      | some _ => (touch d, "ok")
+      | none => (d, "bad-op")
     else if op == "cost" then
       match parseFloatBits? a with
       | some c =>
@@ -284,6 +291,11 @@ def step (d : DSt) (ts : List String) : DSt × String :=
       let st := addSoln a d.w.st
       (touch { d with w := { d.w with st := st } }, s!"exact={b01 (hasExact st.solns)}")
     | _, _ => (d, "bad-op")
+  | ["gate", id, k, v] =>
+    match parseNat? id, parseNat? k, parseBit? v with
+    | some _, some k, some _ => if 1 ≤ k ∧ k ≤ 1000000 then (touch d, "ok") else (d, "bad-op")
+    | _, _, _ => (d, "bad-op")
+  | ["settle"] => (touch d, "ok")
   | ["solnclear"] =>
     let st := clearSolns d.w.st
     (touch { d with w := { d.w with st := st } }, s!"exact={b01 (hasExact st.solns)}")
